@@ -45,6 +45,7 @@ def run(ctx):
     ctx.rule("R08.g", "param's own write-backs never end a link: every update()/_update() call made by the library on a parameter namespace (other than forwarding the caller's own arguments) "
                       "is inside `with _syncing(...)`, or hands the saved references back (**refs), or is on the class-level branch (classes hold no links)", floor=5)
     ctx.rule("R08.m", "setter model: Parameter.__set__ interpreted abstractly on every combination (576) of route x constant/readonly x validation outcome x identity x reference mode x watchers x batching agrees with the specification of this property (see checks/setter_model.py)", floor=1)
+    ctx.rule("R08.k", "constructor model: Parameters._setup_params (with _instantiate_param) interpreted abstractly on 288 combinations of keywords x reference modes (plain value / reference with a value / reference without a value yet / asynchronous reference) x an unknown keyword: own copy of every instantiate=True default and pinned constants before any keyword is applied (and still there when a keyword assigns nothing), exactly the specified assignments, every reference and only references recorded", floor=1)
     ctx.rule("R08.t", "trigger model: Parameters.trigger interpreted abstractly (instance/class x names incl. an Event and an unknown name x an event and a watcher queued before x the update dispatches / queues / raises, 96 cases): update runs once, with the trigger flag raised and the parked queues empty, on the current values; on exit the flag is lowered, earlier queue entries survive, no watcher is queued twice; the write-back is inside a _syncing scope", floor=1)
     ctx.not_decided += ["that the parameter equals the reference's resolved value after arbitrary source histories (needs execution)"]
 
@@ -361,6 +362,8 @@ def run(ctx):
     # model-level rule, run last (see DESIGN §10)
     from checks import setter_model
     setter_model.report(ctx, "C08", "R08.m")
+    from checks import ctor_model
+    ctor_model.report(ctx, "C08", "R08.k")
     from checks import trigger_model
     trigger_model.report(ctx, "C08", "R08.t")
 
